@@ -183,7 +183,7 @@ Theorem generated_parts_of_join normpath sk g tb : split_kind_ok sk = true -> gp
   exists s, join_k tb k = Some s /\ file_parts_g normpath sk g (NStr s) = k.
 Proof.
   intros Hsk Hg Htb k Hk. exists (join_parts k). split; [now apply join_table_ok_is_join_parts|].
-  rewrite (gparts_ok_is_file_parts g Hg). destruct sk as [c|c]; [|discriminate]. cbn in Hsk. apply N.eqb_eq in Hsk. subst c.
+  rewrite (gparts_ok_is_file_parts g Hg). destruct sk as [c|c|]; [|discriminate|discriminate]. cbn in Hsk. apply N.eqb_eq in Hsk. subst c.
   now apply parts_of_join.
 Qed.
 
@@ -216,3 +216,30 @@ Lemma key_listable_examples :
   key_listable posix_normpath ([116; 120; 116], [97], [98]) /\ key_listable posix_normpath ([103], [99; 102; 103], [])
   /\ key_listable posix_normpath ([], [], []).
 Proof. unfold key_listable. repeat split; try reflexivity; intros; try discriminate; reflexivity. Qed.
+
+(** Seeded c13_8: the split done with os.path.splitext.  It agrees with "cut at the last '.'" except for names that start with dots and
+    have no later dot: the string 'a/.b' resolves to (folder 'a', name '.b', no extension), while the entry the 3-tuple ('a', '', 'b')
+    names — and load_dirfile creates for such a file — is (folder 'a', name '', extension 'b').  Both are listed as 'a/.b'; the listed name
+    of the second one does not resolve to it. *)
+Lemma name_forms_splitext_refuted :
+  let s := [97; 47; 46; 98] in
+  split_kind_ok SplitExt = false
+  /\ file_parts_k posix_normpath SplitExt (NStr s) = ([], [97], [46; 98])
+  /\ file_parts_k posix_normpath SplitExt (NTriple [97] [] [98]) = ([98], [97], [])
+  /\ join_k join_table_pinned ([98], [97], []) = Some s
+  /\ join_k join_table_pinned ([], [97], [46; 98]) = Some s
+  /\ file_parts_k posix_normpath (SplitLast 46) (NStr s) = ([98], [97], [])
+  /\ (forall n, splitext (46 :: n) = None \/ exists a b, splitext (46 :: n) = Some (46 :: a, b))
+  /\ file_parts_k posix_normpath SplitExt (NStr [97; 47; 98; 46; 99; 46; 100]) = file_parts_k posix_normpath (SplitLast 46) (NStr [97; 47; 98; 46; 99; 46; 100]).
+Proof.
+  cbv zeta. split; [reflexivity|]. split; [vm_compute; reflexivity|]. split; [vm_compute; reflexivity|].
+  split; [vm_compute; reflexivity|]. split; [vm_compute; reflexivity|]. split; [vm_compute; reflexivity|].
+  split; [|vm_compute; reflexivity].
+  intros n. unfold splitext. destruct (rsplit1 46 (46 :: n)) as [[a b]|] eqn:E; [|left; reflexivity].
+  destruct (existsb (N.eqb 47) b); [left; reflexivity|].
+  destruct a as [|x a'].
+  - left. reflexivity.
+  - cbn [rsplit1] in E. destruct (rsplit1 46 n) as [[a2 b2]|]; [inversion E; subst|].
+    + destruct (forallb _ _); [left; reflexivity|right; eauto].
+    + cbn in E. inversion E.
+Qed.
